@@ -250,7 +250,7 @@ var c16Letters = []string{
 // RunC16 decides the post-change-hook half of C16 at the RIB tier.
 func RunC16(rep *report.Report, tier string) {
 	depth := 4
-	ck := NewClock(tier, 100*time.Second, 20*time.Minute, 11)
+	ck := NewClock(tier, 100*time.Second, 20*time.Minute, 13)
 	if tier == "thorough" {
 		depth = 5
 	}
@@ -281,6 +281,16 @@ func RunC16(rep *report.Report, tier string) {
 		if name != "" {
 			o.Init = Alphabet(ribInits[name]...)
 			label = "resolved-entry-hook/from-" + name
+		}
+		res := mc.BFS(mc.Config{Letters: Names(rl), New: NewResolved(o), MaxDepth: d, Deadline: ck.Next(), Workers: 1})
+		Merge(rep, label, res, d)
+	}
+	for _, name := range []string{"entries-installed", ""} {
+		o := &Options{Letters: rl, Lag: true}
+		label, d := "resolved-entry-hook/lagging-consumer/from-empty", depth-1
+		if name != "" {
+			o.Init = Alphabet(ribInits[name]...)
+			label, d = "resolved-entry-hook/lagging-consumer/from-"+name, depth-2
 		}
 		res := mc.BFS(mc.Config{Letters: Names(rl), New: NewResolved(o), MaxDepth: d, Deadline: ck.Next(), Workers: 1})
 		Merge(rep, label, res, d)
